@@ -197,6 +197,10 @@ def oStep (s : OSt) : Ev → OSt
         let s := if j.discards > 0 then s.flag "c13-discarded-twice" else s
         let s := if j.started.isSome then s.flag "c13-handled-and-discarded" else s
         let s := if j.afterDrain && r != .shutdown && r != .ttlExpired then s.flag "c15-drain-wrong-reason" else s
+        -- C13 reasons over runs: `Shutdown` only after DrainRequests was sent, `RateLimited` only with a limiter
+        -- (`C13.shutdown_discard_only_after_drain`, `C13.rate_limited_discard_needs_limiter`)
+        let s := if r == .shutdown && !s.drainReq then s.flag "c13-shutdown-without-drain" else s
+        let s := if r == .rateLimited && s.info.rl.isNone then s.flag "c13-ratelimited-without-limiter" else s
         s.setJob { j with discards := j.discards + 1 }
   | .reply id back =>
     match s.getJob id with
